@@ -392,8 +392,8 @@ fn effect_bodies() -> Vec<E> {
 fn add_effect(n: &E, body: &E) -> Option<E> {
     match n {
         E::Int(_) | E::Float(_) | E::Str(_) | E::Sym(_) | E::Unit | E::True | E::False | E::Input | E::Ident(_) | E::Group(_) => Some(E::Effect(n.clone().b(), body.clone().b())),
-        // (not generated: directly after a finished suffix operation, `{5}~~ [0]` - the unchanged tree already mishandles
-        // what follows such a block, see DESIGN 10.7)
+        // directly after a finished suffix operation, `{5}~~ [0]` (generated since the repair C18-F2 of the parser)
+        E::Un(u, x) if u.suffix() && !matches!(**x, E::Seq(..) | E::Effect(..)) => Some(E::Effect(n.clone().b(), body.clone().b())),
         _ => None,
     }
 }
